@@ -31,6 +31,8 @@ pub struct Process {
     // serializes the client actions on this process
     sync: Arc<std::sync::Mutex<()>>,
     row_sync: Arc<std::sync::Mutex<()>>,
+    #[cfg(feature = "verif")]
+    pub(crate) verif_instance: u64,
 }
 
 impl fmt::Debug for Process {
@@ -69,6 +71,8 @@ impl Process {
             runtime: rt.clone(),
             sync: Arc::new(std::sync::Mutex::new(())),
             row_sync: Arc::new(std::sync::Mutex::new(())),
+            #[cfg(feature = "verif")]
+            verif_instance: crate::verif::next_instance(),
         })
     }
 
